@@ -1298,6 +1298,8 @@ def tool_level(ctx, stats):
         "locale_sensitive_calls_made": {k: v for k, v in sorted(loc["calls"].items()) if v > 0 and k not in ("getenv", "umask", "getcwd")},
         "setlocale_arguments": sorted(loc["setlocale_args"]), "environment_variables_asked_for": sorted(loc["env_names"]),
         "name_heads": NAME_HEADS}
+    bad += scale_cases(ctx, builds, stats)
+    runs += 6
     if not quick:
         bad += big_case(ctx, builds, stats)
         runs += 3
@@ -1308,7 +1310,8 @@ def tool_level(ctx, stats):
         "configurations_with_more_than_one_completion_order": sum(1 for v in orders.values() if len(v) > 1),
         "runs_with_overtaking_blocks": overtakes, "consecutive_blocks_started_by_different_workers": handoffs,
         "compressor_options": sorted(xopts_seen)[:40], "compressors_used": sorted(comps_seen), "perturbation_delays_applied": delays,
-        "locale": stats.get("locale", {}), "data_area_beyond_4GiB": stats.get("big", "thorough tier only"), "worker_counts_seen": sorted(worker_counts, key=lambda x: int(x or 0)),
+        "locale": stats.get("locale", {}), "data_area_beyond_4GiB": stats.get("big", "thorough tier only"),
+        "scale_cases": stats.get("scale_cases"), "worker_counts_seen": sorted(worker_counts, key=lambda x: int(x or 0)),
         "tsan_build": stats.get("tsan_build"), "tsan_runs": tsan_runs, "tsan_reports": tsan_reports,
         "clock_reads_intercepted": sum(clock["reads"].values()), "clock_reads_by_entry_point": dict(sorted(clock["reads"].items())),
         "clock_shim_runs": clock["runs"], "clock_shim_bound_runs": clock["bound"], "clock_shim_logs_unreadable": clock["log_unreadable"],
@@ -1336,6 +1339,121 @@ def sha_file_big(p):
         return h.hexdigest()
     except OSError:
         return "<no image>"
+
+
+SCALE_WORDS = ("block", "pool", "worker", "fragment", "inode", "table", "squash", "deflate", "queue", "ticket", "backlog", "super",
+               "xattr", "dir", "index", "sparse", "tail", "hash", "export", "id", "the", "of", "and", "a", "to", "in", "is", "0x", "==", "->")
+
+
+def scale_input(path, nblocks, tail, seed):
+    """a text-like, compressible file of nblocks * 4096 + tail bytes without a zero block and without two equal 4096 byte blocks: every
+    4 KiB starts with a line that holds its number, the rest is a window into 4 MiB of seeded pseudo-random words whose offset moves
+    with the block number.  Written 256 blocks at a time (bytes operations only)"""
+    import random
+    rng = random.Random("C02/scale/%d" % seed)
+    words = [w.encode() for w in SCALE_WORDS] + [b"%x" % rng.getrandbits(24) for _ in range(400)]
+    parts, n = [], 0
+    while n < (4 << 20) + 8192:
+        w = rng.choice(words) + (b"\n" if rng.random() < 0.12 else b" ")
+        parts.append(w)
+        n += len(w)
+    pool = b"".join(parts)
+    span = len(pool) - 4096
+    with open(path, "wb") as f:
+        for base in range(0, nblocks, 256):
+            chunk = []
+            for i in range(base, min(base + 256, nblocks)):
+                head = b"== block %08d ==\n" % i
+                off = (i * 4099) % span
+                chunk.append(head + pool[off:off + 4096 - len(head)])
+            f.write(b"".join(chunk))
+        f.write((b"tail of %d blocks\n" % nblocks + pool)[:tail])
+    return nblocks * 4096 + tail
+
+
+def scale_cases(ctx, builds, stats, only=None):
+    """quick and thorough tier: block counts the small input sets never reach.  One ~300 MiB file packed with -b 4096 (more than 2^16
+    blocks: every 16 bit block counter / index would wrap) and with -b 1M (300 blocks and a tail end), -c lz4; the serial-pool build's
+    image against threaded builds (-j 4 under seeded delays, -j 16 -Q 3 with the first worker held back).  -> number of mismatches"""
+    import struct
+    t_all = time.time()
+    d = ctx.scratch / "c02scale"
+    if d.exists():
+        shutil.rmtree(d)
+    (d / "root").mkdir(parents=True)
+    nblocks, tail = 76800, 1234
+    t0 = time.time()
+    size = scale_input(d / "root" / "a_text", nblocks, tail, ctx.seed)
+    (d / "root" / "b_small").write_bytes(b"a second file, so that the fragment block holds two tail ends\n" * 20)
+    for n, t in (("a_text", 1500000001), ("b_small", 1500000002), ("", 1500000003)):
+        os.utime(d / "root" / n if n else d / "root", (t, t))
+    gen_s = round(time.time() - t0, 1)
+    # no zero block, no two equal blocks (otherwise the sparse / de-duplication paths would shrink the case)
+    seen, zero, dup = set(), 0, 0
+    with open(d / "root" / "a_text", "rb") as f:
+        while True:
+            b = f.read(4096)
+            if len(b) < 4096:
+                break
+            h = hash(b)
+            dup += h in seen
+            seen.add(h)
+            zero += b.count(0) == 4096
+    cases = [("blocks-64k", 4096, size // 4096), ("block-1M", 1 << 20, size >> 20)]
+    configs = [("serial", [], {}),
+               ("plain", ["-j", "4"], {"C02_PERTURB_SEED": str(7 + ctx.seed), "C02_PERTURB_MODE": "0", "C02_PERTURB_US": "20"}),
+               ("plain", ["-j", "16", "-Q", "3"], {"C02_PERTURB_SEED": str(8 + ctx.seed), "C02_PERTURB_MODE": "1", "C02_PERTURB_FIRST_MS": "20"})]
+    bad, res = 0, []
+    for name, B, want_blocks in cases:
+        if only and name != only:
+            continue
+        t0 = time.time()
+        shas, submitted, bytes_used = [], [], None
+        for variant, extra, env in configs:
+            out, trace = d / "out.sqfs", d / "trace.txt"
+            for p in (out, trace):
+                if p.exists():
+                    p.unlink()
+            cmd = [str(builds[variant]["gensquashfs"]), "-q", "-f", "-c", "lz4", "-b", str(B), "-D", str(d / "root")] + extra + [str(out)]
+            e = {"SOURCE_DATE_EPOCH": SDE, "C02_TRACE_FILE": str(trace)}
+            e.update(env)
+            rc, err = run_tool(ctx, cmd, None, e, str(ctx.scratch), 0o022, [], timeout=300)
+            sha = sha_file_big(out)
+            shas.append((rc, sha))
+            tr = read_trace(trace)
+            submitted.append(int(tr.get("submitted", "-1")) if tr.get("submitted", "").isdigit() else -1)
+            try:
+                with open(out, "rb") as f:
+                    f.seek(40)
+                    bytes_used = struct.unpack("<Q", f.read(8))[0]
+            except Exception:
+                bytes_used = None
+            why = None
+            if rc != 0:
+                why = "packer failed (rc=%s): %s" % (rc, err[-300:])
+            elif tr.get("fifo") == "0":
+                why = "the pool handed items back out of submission order"
+            elif sha != shas[0][1]:
+                why = "image differs from the serial-pool build's image (sha256 %s… vs %s…)" % (sha[:16], shas[0][1][:16])
+            if why:
+                bad += 1
+                ctx.violation("tool-scale:%s:%s" % (name, vlib.sha(" ".join(extra) + variant)[:12]),
+                              "gensquashfs -c lz4 -b %d %s (%s build) on one %d byte text file (%d blocks): %s" % (B, " ".join(extra), variant, size, want_blocks, why),
+                              {"kind": "tool-scale", "case": name, "seed": ctx.seed, "variant": variant, "extra": extra, "env": env, "stderr": err[-1500:]})
+        # the case is only worth its name if that many blocks really went through the pool and the data was neither stored nor folded away
+        if zero or dup or min(submitted) < want_blocks or (name == "blocks-64k" and min(submitted) <= 65536) or \
+                bytes_used is None or not (size // 20 < bytes_used < size * 9 // 10):
+            bad += 1
+            ctx.violation("infra:tool-scale-not-reached", "tool level, scale case %s: the input has %d zero and %d repeated blocks, the pool saw %s blocks "
+                          "(wanted: at least %d%s), image size %s for %d bytes of input (wanted: compressed, between 5%% and 90%%)" % (
+                              name, zero, dup, submitted, want_blocks, " and more than 65536" if name == "blocks-64k" else "", bytes_used, size),
+                          {"kind": "infra", "case": name, "submitted": submitted, "bytes_used": bytes_used}, found_input=False)
+        res.append({"case": name, "block_size": B, "blocks": want_blocks, "blocks_through_the_pool": submitted, "bytes": size, "image_bytes": bytes_used,
+                    "configs": ["%s %s" % (v, " ".join(x)) for v, x, _ in configs], "sha256": shas[0][1][:16], "seconds": round(time.time() - t0, 1)})
+    shutil.rmtree(d, ignore_errors=True)
+    stats["scale_cases"] = {"input": "one file of %d blocks of 4096 bytes + %d bytes, seeded word text, no zero block, no two equal blocks; a 1300 byte second "
+                                     "file" % (nblocks, tail), "generation_s": gen_s, "cases": res, "mismatches": bad, "wall_s": round(time.time() - t_all, 1)}
+    return bad
 
 
 def big_case(ctx, builds, stats, replay_only=None):
@@ -1571,6 +1689,16 @@ def replay(ctx, path):
         print(stats.get("big"))
         fail = len(ctx.violations) > n
         print("REPRODUCED" if fail else "not reproduced")
+        return 1 if fail else 0
+    if kind == "tool-scale":
+        stats = {}
+        builds = build_tools(ctx, stats)
+        ctx.seed = rp.get("seed", ctx.seed)
+        n = len(ctx.violations)
+        scale_cases(ctx, builds, stats, only=rp.get("case"))
+        print(stats.get("scale_cases"))
+        fail = len(ctx.violations) > n
+        print("REPRODUCED" if fail else "not reproduced (the failure may need another schedule: repeat)")
         return 1 if fail else 0
     if kind == "sde":
         stats = {}
